@@ -12,7 +12,7 @@ from ..model import AnalysisError, FunctionInfo, bind_args
 from ..roles import roles_of
 from ..symb import Translator, Untranslatable, is_zero
 from ..terms import guard_extra, call_name, canon, cmp_normal, const_num, guard_canon, norm_stmt, state_key
-from .common import deref_canon as _deref_c, iter_stores, reaching_assignments, self_attr_of
+from .common import deref_canon as _deref_c, iter_stores, reaching_assignments, self_attr_of, pos
 
 EXPLANATION = (
     "R1 final sampling site: the loop bounded by options['noise_final_samples'] calls the logger with the no-record flag at the incumbent slot; "
@@ -212,7 +212,7 @@ def check(ctx):
                     ests = {}
                     for t, v, s, k in iter_stores(opt.node):
                         a = self_attr_of(t)
-                        if a in ("fval", "fsd") and isinstance(t, ast.Attribute) and s.lineno > floop.lineno and yname in {n.id for n in ast.walk(v) if isinstance(n, ast.Name)}:
+                        if a in ("fval", "fsd") and isinstance(t, ast.Attribute) and pos(s) > pos(floop) and yname in {n.id for n in ast.walk(v) if isinstance(n, ast.Name)}:
                             ests[a] = (tr.tr(v), s)
                     mean, std, size = sp.Function("mean"), sp.Function("std"), sp.Function("size")
                     if "fval" in ests:
@@ -230,7 +230,7 @@ def check(ctx):
                     ctx.undecided(f"estimator uses a construct the term translator does not know ({e})")
                 # supplement only under size == 1
                 for t, v, s, k in iter_stores(opt.node):
-                    if isinstance(t, ast.Name) and t.id == yname and call_name(v) in ("np.vstack", "np.append", "np.concatenate") and s.lineno > floop.lineno:
+                    if isinstance(t, ast.Name) and t.id == yname and call_name(v) in ("np.vstack", "np.append", "np.concatenate") and pos(s) > pos(floop):
                         g = guard_canon(prog, opt, s)
                         okg = f"(1 == {yname}.size)" in g
                         src = [canon(e) for e in (v.args[0].elts if isinstance(v.args[0], (ast.Tuple, ast.List)) else v.args)]
@@ -270,13 +270,13 @@ def check(ctx):
         for n in ast.walk(opt.node):
             if isinstance(n, ast.Subscript) and isinstance(n.ctx, ast.Load) and canon(n.slice) == idx:
                 un = cfg.node_of(n)
-                if un is not None and un.id in cfg.reachable(sn.id) and n.lineno > st.lineno:
+                if un is not None and un.id in cfg.reachable(sn.id) and pos(n) > pos(st):
                     uses.append(n)
         bad = []
         for u in uses:
             on_sliced = sliced is not None and canon(u.value) == sliced
             un = cfg.node_of(u)
-            dominated = any(cfg.dominates(cfg.node_of(o).id, un.id) and o.lineno < u.lineno for o in offs)
+            dominated = any(cfg.dominates(cfg.node_of(o).id, un.id) and pos(o) < pos(u) for o in offs)
             # stop at a re-definition of idx by another argmin
             if on_sliced and dominated:
                 bad.append((u, "sliced array indexed after the offset"))
